@@ -720,7 +720,7 @@ Definition encode_before_fix : layer -> res (list N) := encode_with enc_cell_bef
 
 Lemma before_fix_invisible_bold :
   exists bs, encode_before_fix (lay RNormal None 0 [[mkc 32 7 0 0 32769; A_cell]]) = Ok bs /\ decode bs = Err 2.
-Proof. eexists. split; vm_compute; reflexivity. Qed.
+Proof. eexists. split; [vm_compute; reflexivity | vm_compute; reflexivity]. Qed.
 
 Lemma before_fix_invisible_short_bit :
   exists bs L', encode_before_fix (lay RNormal None 0 [[mkc 32 7 0 0 49152; A_cell]; [A_cell]]) = Ok bs /\ decode bs = Ok L' /\
@@ -741,4 +741,41 @@ Proof.
   intros [V|A]; unfold enc_cell_before_fix, enc_cell.
   - rewrite V. reflexivity.
   - destruct (is_visible c); cbn [negb]; [reflexivity|]. rewrite A. reflexivity.
+Qed.
+
+(* ------------------------------------------------------------------ the known finding C07-role-not-stored *)
+Definition KnownC07_1 (L : layer) : Prop := role L = RPastePreview \/ role L = RPasteImage.
+
+Lemma layer_role_outside_known L : ty_layer L -> wf_layer L -> ~ KnownC07_1 L ->
+  exists bs L', encode L = Ok bs /\ decode bs = Ok L' /\ role L' = role L.
+Proof.
+  intros T W K. apply layer_roundtrip_role; try assumption.
+  destruct (role L) eqn:R; try reflexivity.
+  - exfalso. apply K. now left.
+  - exfalso. apply K. now right.
+  - exfalso. now apply (wf_role L W).
+Qed.
+
+Lemma known_1_in_class : KnownC07_1 (lay RPastePreview None 0 [[A_cell]]).
+Proof. now left. Qed.
+
+(* a concrete layer that satisfies every hypothesis: short, long and invisible cells, a ragged row, a terminator *)
+Definition sample_layer : layer :=
+  mkLayer [226; 152; 186] RNormal MChars (Some (1, 2, 3)) true true false true false 128 (-50) 50 None 3 2 7
+          [[mkc 65 7 0 0 1; mkc 32 7 0 9 32769; mkc 128512 2147483648 300 256 1023]; [mkc 255 255 255 255 16383]].
+
+Lemma sample_layer_ok : ty_layer sample_layer /\ wf_layer sample_layer.
+Proof.
+  split.
+  - split; cbn; unfold i32; repeat split; lia.
+  - split.
+    + discriminate.
+    + left. cbn. lia.
+    + cbn. lia.
+    + cbn. lia.
+    + intros x y Hx Hy. cbn [lw lh sample_layer] in Hx, Hy.
+      assert (Ex : x = 0%Z \/ x = 1%Z \/ x = 2%Z) by lia. assert (Ey : y = 0%Z \/ y = 1%Z) by lia.
+      destruct Ex as [->|[->| ->]], Ey as [->| ->]; intro V; vm_compute in V; try discriminate;
+        vm_compute; repeat split; reflexivity.
+    + apply fits_small; cbn; lia.
 Qed.
